@@ -30,7 +30,7 @@ const (
 )
 
 // vpCondValue draws a condition value and returns it with its truthiness per
-// the statement (exactly null, false, numeric zero, NaN and '' are falsy).
+// the statement (exactly null, false, numeric zero, NaN and ” are falsy).
 func vpCondValue() (v interface{}, truthy bool, kind int) {
 	kind = vpChoice("ck", vtCount)
 	switch kind {
@@ -69,7 +69,9 @@ func vpCondValue() (v interface{}, truthy bool, kind int) {
 	return nil, false, kind
 }
 
-func vpLit(tok SyntaxKind, val string) *LiteralExpression { return &LiteralExpression{Token: tok, Value: val} }
+func vpLit(tok SyntaxKind, val string) *LiteralExpression {
+	return &LiteralExpression{Token: tok, Value: val}
+}
 
 // vpSame: the selected operand's value handed back unchanged.
 func vpSame(got, want interface{}) bool {
@@ -384,4 +386,40 @@ func VP_C06_reeval() {
 		vpAssert("C06/reeval/coalesce-follows-current-data", vpSame(v, c2 == nil))
 	}
 	vpReach("C06/reeval/done")
+}
+
+func init() {
+	vpHarnesses["VP_C06_text"] = VP_C06_text
+}
+
+// C06/text: CONCRETE POOL of formulas through the real parser whose condition
+// is itself a computed value (prefix operators on text: a computed zero / NaN
+// is falsy like a literal one), or whose unselected branch would fail.
+func VP_C06_text() {
+	pool := []struct {
+		f    string
+		want interface{}
+	}{
+		{"!!+'0'", false}, {"!!-'0'", false}, {"!!+'abc'", false}, {"!!+'7'", true}, {"+'0' ? 'T' : 'F'", "F"}, {"+'abc' ? 'T' : 'F'", "F"}, {"-'0' || 'x'", "x"},
+		{"(+'0' && 'x') === 0", true}, {"!!(0 * 5)", false}, {"!!(1 - 1.0)", false}, {"!!(0.1 + 0.2 - 0.3)", false}, {"(2 - 2) ? 'T' : 'F'", "F"}, {"!!toFloat('zz')", false},
+		{"true ? 1 : (x = 2)", 1}, {"false ? (1 = 2) : 'ok'", "ok"}, {"1 ? 'sel' : (a.b = 1)", "sel"}, {"null ? nofn() : 'ok'", "ok"}, {"'' ? null!.k : 'ok'", "ok"}, {"0 ? left('a', -1) : 'ok'", "ok"},
+		{"true ? (false ? (y = 1) : 2) : (x = 2)", 2}, {"!!'0'", true}, {"!!' '", true}, {"!![]", true}, {"!!null", false}, {"!!''", false},
+	}
+	p := pool[vpChoice("f", len(pool))]
+	code, err := ParseSourceCode([]byte(p.f))
+	vpAssert("C06/text/parses", err == nil)
+	if err != nil {
+		return
+	}
+	v, rerr := NewRunner().Resolve(context.Background(), code.Expression) // the public entry point
+	vpObserve("text", p.f, vpShowValue(v), rerr != nil)
+	vpAssert("C06/text/no-error", rerr == nil)
+	switch w := p.want.(type) {
+	case int:
+		g, ok := v.(float64)
+		vpAssert("C06/text/value", ok && g == float64(w))
+	default:
+		vpAssert("C06/text/value", vpSame(v, p.want))
+	}
+	vpReach("C06/text/done")
 }
